@@ -208,7 +208,8 @@ static void install_abort_handler()
 
 // ---------------------------------------------------------------- allocation interposer
 struct AllocEv { char kind; void *p; size_t sz; };  // 'm' malloc, 'f' free, 'r' realloc(new), 'x' failed
-static int in_lib = 0;                  // >0 while executing library code
+static volatile int in_lib = 0;         // >0 while executing library code (volatile + barriers: gcc knows what free()
+                                        // and malloc() do and would otherwise move the bookkeeping across such calls)
 static std::unordered_map<void *, size_t> *g_live;   // blocks allocated by the library
 static std::vector<AllocEv> *g_events;  // events since last clear (only when recording)
 static bool g_record_events = false;
@@ -393,15 +394,15 @@ void __assert_fail(const char *expr, const char *file, unsigned line, const char
 namespace vf {
 // Run a library call. LIB(x): abort is a violation. MAY_ABORT(x): returns true
 // if the call ended in abort(); the objects involved must then be abandoned.
-#define LIB(stmt) do { vf::in_lib++; stmt; vf::in_lib--; } while (0)
+#define LIB(stmt) do { vf::in_lib = vf::in_lib + 1; __asm__ volatile("" ::: "memory"); stmt; __asm__ volatile("" ::: "memory"); vf::in_lib = vf::in_lib - 1; } while (0)
 template <class F> static bool may_abort(F &&f)
 {
     volatile int saved_in_lib = in_lib;
     if (sigsetjmp(g_abort_jmp, 1) == 0) {
         g_abort_armed = 1;
-        in_lib++;
+        in_lib = in_lib + 1;
         f();
-        in_lib--;
+        in_lib = in_lib - 1;
         g_abort_armed = 0;
         return false;
     }
